@@ -309,6 +309,16 @@ fn mean_ci<F: Fl>(case: &Value) -> Value {
     };
     ev["out"] = out;
     ev["stats"] = stats;
+    // the one-shot call once more on a FRESH thread: the answer must not depend on what this thread computed before
+    if style == "ci" && a.len() <= 200_000 {
+        ev["out_fresh"] = fresh(&|| match fl {
+            "arith" => outcome(|| Arithmetic::<F>::ci(conf, &a)),
+            "geo" => outcome(|| Geometric::<F>::ci(conf, &a)),
+            "harm" => outcome(|| Harmonic::<F>::ci(conf, &a)),
+            "paired" => outcome(|| Paired::<F>::ci(conf, &a, &b)),
+            _ => outcome(|| Unpaired::<F>::ci(conf, &a, &b)),
+        });
+    }
     if (fl == "geo" || fl == "harm") && case.get("aux").and_then(|b| b.as_bool()).unwrap_or(false)
         && a.iter().all(|x| x.is_finite() && *x > F::zero()) && !a.is_empty()
     {
@@ -381,7 +391,7 @@ fn prop_ci(case: &Value) -> Value {
     };
     ev["confv"] = crate::conf::enc_conf(&conf);
     let fe = case["fe"].as_str().unwrap_or("ci");
-    ev["out"] = guard(|| match fe {
+    let call = || guard(|| match fe {
         "ci" => ok_f64(proportion::ci(conf, n, k)),
         "ci_wilson" => ok_f64(proportion::ci_wilson(conf, n, k)),
         "ci_z_normal" => ok_f64(proportion::ci_z_normal(conf, n, k)),
@@ -442,7 +452,15 @@ fn prop_ci(case: &Value) -> Value {
         }
         f => panic!("front-end {}", f),
     });
+    ev["out"] = call();
+    // the same request on a FRESH thread (no per-thread state left by earlier calls): the answer must not depend on history
+    if n <= 100_000 { ev["out_fresh"] = fresh(&call); }
     ev
+}
+
+/// run a request on a newly spawned thread
+fn fresh(f: &(dyn Fn() -> Value + Sync)) -> Value {
+    std::thread::scope(|s| s.spawn(|| f()).join().unwrap_or_else(|_| json!({"tag": "panic", "msg": "fresh thread"})))
 }
 
 fn prop_sig(case: &Value) -> Value {
@@ -497,6 +515,7 @@ fn quant_ranks(case: &Value) -> Value {
     }
     ev["out"] = guard(|| ok_usize(quantile::ci_indices(conf, n, q)));
     ev["out_stats"] = guard(|| ok_usize(quantile::Stats::new(n).ci(conf, q)));
+    ev["out_fresh"] = fresh(&|| guard(|| ok_usize(quantile::ci_indices(conf, n, q))));
     ev
 }
 
@@ -597,6 +616,8 @@ fn quant_data(case: &Value) -> Value {
                         s.sort_by(|a, b| a.partial_cmp(b).unwrap());
                         quantile::ci_sorted_unchecked(conf, &s, q)
                     }
+                    // the caller's promise broken: the data as given (not sorted)
+                    "sorted_raw" => quantile::ci_sorted_unchecked(conf, &data, q),
                     // a container whose by-reference iterator has no exact size hint (lower bound 0)
                     "ci_sparse" => {
                         let sp = Sparse(data.iter().flat_map(|x| [None, Some(x.clone())]).collect());
